@@ -429,6 +429,7 @@ pub fn run_plumbing(sim: &Sim, _idx: u64) {
     if let Some(l) = server_enc {
         server = server.max_encoding_message_size(l);
     }
+    let server = if sim.chance(1, 3) { server.clone() } else { server };
     let lb = Loopback::new(sim, server);
     let mut client = crate::rawsvc::raw_client::RawClient::new(lb);
     if let Some(l) = client_dec {
@@ -437,6 +438,17 @@ pub fn run_plumbing(sim: &Sim, _idx: u64) {
     if let Some(l) = client_enc {
         client = client.max_encoding_message_size(l);
     }
+    // an application may hand out clones of the configured client (and servers are cloned per
+    // connection): they carry the same limits
+    let mut client = match sim.weighted(&[3, 1, 1]) {
+        1 => client.clone(),
+        2 => {
+            let c = client.clone();
+            drop(client);
+            c.clone()
+        }
+        _ => client,
+    };
     let obs = {
         let fut = c02::perform::<RawMsg, _>(sim, &mut client, &plan);
         let mut fut = std::pin::pin!(fut);
